@@ -311,7 +311,7 @@ func c03Exec(op string) string {
 	// the same content in other Go container types (lists of strings as []string anywhere; below the
 	// levels the root rules look at also mxj.Map, map[interface{}]interface{}, map[string]string):
 	// the encoders treat them as the plain containers - same bytes
-	if tv := retypeBelowRoot(v, hashStr(op), "MYSL"); len(notes) == 0 && enc(tv) != enc(v) {
+	if tv := retypeBelowRoot(v, hashStr(op), "MYSLB"); len(notes) == 0 && enc(tv) != enc(v) {
 		var bt, bti []byte
 		var et1, et2 error
 		switch api {
